@@ -1,5 +1,5 @@
 """C17 -- port semantics: explicit vs default, zero vs absent."""
-from .common import run_model, run_progs, run_harvest
+from .common import run_model, run_progs, run_harvest, run_value_machine
 
 FINISH = dict(rule="R1 MC_Ports: full product 7 schemes x 3 userinfo x 5 host kinds x 16 port spellings, Level I against the "
                    "Level A port table; R3 the same grid and more through constructor (both modes) / build(port=, authority=) "
@@ -13,4 +13,5 @@ def run(out, sc, tier, seed):
               label="MC_Ports")
     out.exhaustive = True
     run_progs(out, sc, "C17", {"gen": "ports", "seed": seed, "fields": FIELDS, "n": 4000 if tier == "quick" else 100000}, "ports")
+    run_value_machine(out, sc, "C17", tier, fields=FIELDS)
     run_harvest(out, sc, "C17")
